@@ -22,6 +22,9 @@ type V struct {
 	Tup []V
 	// Math marks spec-level mathematical integers (no wrap-around).
 	Math bool
+	// Dyn: an interface value made from this concrete value on the current path (the
+	// dynamic type is known exactly); method calls through it are resolved statically.
+	Dyn *V
 }
 
 // Place is an lvalue: heap array, index terms and an accessor path inside the
